@@ -239,6 +239,8 @@ impl CKKSEncoder {
         if max_coeff_bit_count >= context_data.total_coeff_modulus_bit_count() {
             panic!("[Invalid argument] Values are too large to encode.");
         }
+        #[cfg(feature = "verif")]
+        crate::verif::ckks_hooks::record("c64_array", max_coeff_bit_count, || conj_values.iter().map(|x| x.re).collect());
 
         let two_pow_64 = 2.0_f64.powi(64);
 
@@ -371,6 +373,8 @@ impl CKKSEncoder {
         if max_coeff_bit_count >= context_data.total_coeff_modulus_bit_count() {
             panic!("[Invalid argument] Values are too large to encode.");
         }
+        #[cfg(feature = "verif")]
+        crate::verif::ckks_hooks::record("f64_polynomial", max_coeff_bit_count, || values.iter().map(|x| x * scale).collect());
 
         let n = values.len();
         // Use faster decomposition methods when possible
@@ -479,6 +483,8 @@ impl CKKSEncoder {
         if coeff_bit_count >= context_data.total_coeff_modulus_bit_count() {
             panic!("[Invalid argument] Value is too large to encode.");
         }
+        #[cfg(feature = "verif")]
+        crate::verif::ckks_hooks::record("f64_single", coeff_bit_count, || vec![value]);
 
         let two_pow_64 = 2.0_f64.powi(64);
 
@@ -927,6 +933,20 @@ impl CKKSEncoder {
     }
     
 
+}
+
+/// Verification hooks (feature `verif` only): read access to the private tables of the encoder and to `ComplexRoots`.
+#[cfg(feature = "verif")]
+impl CKKSEncoder {
+    pub fn verif_index_map(&self) -> &[usize] { &self.matrix_reps_index_map }
+    pub fn verif_root_powers(&self) -> &[Complex<f64>] { &self.root_powers }
+    pub fn verif_inv_root_powers(&self) -> &[Complex<f64>] { &self.inv_root_powers }
+    /// (the stored octant table `roots[0..=m/8]`, `get_root(j)` for the given indices)
+    pub fn verif_complex_roots(degree_of_roots: usize, indices: &[usize]) -> (Vec<Complex<f64>>, Vec<Complex<f64>>) {
+        let r = ComplexRoots::new(degree_of_roots);
+        let got = indices.iter().map(|&j| r.get_root(j)).collect();
+        (r.roots, got)
+    }
 }
 
 #[cfg(test)]
